@@ -7,7 +7,7 @@ import subprocess
 from concurrent.futures import ThreadPoolExecutor
 
 from . import gen
-from .common import MODELRUN_DIR, BuildError, Lock, harness_bin, sh
+from .common import MODELRUN_DIR, BuildError, Lock, harness_bin, sh, source_constants
 
 W = 1 << 64
 U128 = 1 << 128
@@ -32,6 +32,8 @@ JSON_TYPES = ["side", "tif", "peg", "oid", "order", "update", "txn", "txlist", "
 
 B64 = [0, 1, 2, 9, 10, 80, 255, 256, (1 << 32) - 1, 1 << 32, 1 << 53, (1 << 53) + 1,
        (1 << 63) - 1, 1 << 63, W - 2, W - 1]
+_SRC = [v for c in source_constants() for v in (c - 1, c, c + 1)]      # values the code singles out
+B64 = B64 + [v for v in _SRC if v not in B64]
 BI64 = [0, 1, -1, 9, -9, (1 << 53) + 1, -((1 << 53) + 1), (1 << 63) - 1, -(1 << 63), -(1 << 63) + 1]
 B128 = [0, 1, 15, 16, (1 << 53) + 1, (1 << 64) - 1, 1 << 64, (1 << 125) - 1, 1 << 125, 1 << 127,
         U128 - 2, U128 - 1, 0x0123456789abcdef0123456789abcdef, 0xfedcba9876543210fedcba9876543210]
@@ -101,8 +103,24 @@ def peg(rng):
     return rng.choice(gen.PEGS)
 
 
+def realistic_order(rng, k, oid_):
+    """An order as a trading system would build it: wall-clock millisecond timestamp, GTD expiry in epoch SECONDS (as the
+    crate documents) or milliseconds, moderate quantities, the crate's own default / constant values as parameters."""
+    ts = rng.randint(1_600_000_000_000, 1_800_000_000_000)
+    t = rng.random()
+    tf = ("GTD%d" % (ts // 1000 + rng.randint(0, 5 * 365 * 86400)) if t < 0.45 else
+          "GTD%d" % (ts + rng.randint(0, 10 ** 10)) if t < 0.6 else rng.choice(["GTC", "IOC", "FOK", "DAY"]))
+    c = source_constants() or [80]
+    return gen.order(k, oid=oid_, price=rng.randint(1, 100000), side=side(rng), ts=ts, tif=tf,
+                     vis=rng.randint(0, 1000), hid=rng.randint(0, 1000), thr=rng.choice([0, 1, rng.choice(c)]),
+                     amt=rng.choice([None, rng.choice(c), rng.choice(c), rng.randint(0, 100)]), auto=rng.random() < 0.6,
+                     trail=rng.randint(0, 500), lastref=rng.randint(1, 100000), off=rng.randint(-50, 50), peg=peg(rng))
+
+
 def order(rng, kind=None, oid_=None, ts=None):
     k = kind or rng.choice(gen.KINDS)
+    if ts is None and rng.random() < 0.25:
+        return realistic_order(rng, k, oid_ or oid(rng))
     return gen.order(k, oid=oid_ or oid(rng), price=u64(rng), side=side(rng),
                      ts=u64(rng) if ts is None else ts, tif=tif(rng),
                      vis=u64(rng), hid=u64(rng), thr=u64(rng),
